@@ -48,6 +48,7 @@ type Contract struct {
 	Trusted   bool
 	Fresh     bool // result pointers are freshly allocated
 	Pure      bool
+	Nullable  map[string]bool
 	File      string
 }
 
@@ -111,7 +112,7 @@ func parseContractFile(path, pkgPath string) ([]*Contract, error) {
 		word, rest := splitWord(body)
 		switch word {
 		case "func":
-			cur = &Contract{Func: pkgPath + "." + strings.TrimSpace(rest), Loops: map[int][]*Clause{}, File: path}
+			cur = &Contract{Func: pkgPath + "." + strings.TrimSpace(rest), Loops: map[int][]*Clause{}, File: path, Nullable: map[string]bool{}}
 			out = append(out, cur)
 		case "requires", "ensures", "modifies", "inputsize":
 			if cur == nil {
@@ -141,6 +142,10 @@ func parseContractFile(path, pkgPath string) ([]*Contract, error) {
 			_ = saved
 			// register now; parse on flush through closure below
 			cc.Loops[nn] = append(cc.Loops[nn], cl)
+		case "nullable":
+			for _, n := range strings.Fields(strings.ReplaceAll(rest, ",", " ")) {
+				cur.Nullable[n] = true
+			}
 		case "inline":
 			cur.Inline = true
 		case "trusted":
